@@ -36,10 +36,12 @@ Check(ev, at) ==
         \cup If(len + ev.done <= cap /\ ev.cap # cap, {V(at, "capacity() changed although there was room")})
         \cup If(ev.step_errors # 0, {V(at, "a single step broke len/capacity rules")})
       [] ev.op = "destroy_many" ->
-             If(ev.wrong # 0, {V(at, "destroy of a live entity failed or left it reachable")})
+             If(ev.wrong # 0, {[p |-> <<"C12", "C01">>, at |-> at, what |-> "destroy of a live entity failed or left it reachable"]})
         \cup If(ev.len # len - ev.removed \/ ev.cap # cap, {V(at, "len()/capacity() wrong after removals")})
       [] ev.op = "probe" ->
              If(ev.listed # len, {V(at, "entities() length differs from len()")})
+        \cup If(ev.wrong # 0, {[p |-> <<"C12", "C01", "C02", "C14">>, at |-> at,
+                                 what |-> "a sampled handle (positions next to powers of two included) is not unique, resolves inconsistently, reads another value or fails the raw round trip"]})
 \* invariants of every observed state
 StateViol(ev, at) ==
     IF ev.op = "decl" \/ ev.len = -1 THEN {}
